@@ -112,7 +112,7 @@ Proof. intros H p n. unfold zt_remove. rewrite H. apply zt_remove_recursive_spec
 
 (* witness: removing a name that is not a zone succeeds and removes another zone *)
 Definition root_l : label := 1.
-Definition zt_ex : znode := fst (c08_tree_run [ZIns [root_l; 353] 104]).
+Definition zt_ex : znode := zr_in (fst (c08_tree_run [ZIns 1 [root_l; 353] 104])).
 Lemma zonetree_remove_zone_not_recursive_refuted :
   exists t p p', zt_get t p = None /\ zt_get t p' <> None /\
     match zt_remove_gen false p t with Ok t' => zt_get t' p' = None | _ => False end.
@@ -125,7 +125,50 @@ Proof. intro H. unfold zt_remove. rewrite H. exact zonetree_remove_zone_not_recu
 
 (* non-vacuity *)
 Example zt_example :
-  let t := fst (c08_tree_run [ZIns [root_l; 353] 1; ZIns [root_l; 353; 354] 2; ZIns [root_l] 3; ZIns [root_l; 353] 9]) in
+  let t := zr_in (fst (c08_tree_run [ZIns 1 [root_l; 353] 1; ZIns 1 [root_l; 353; 354] 2; ZIns 1 [root_l] 3; ZIns 1 [root_l; 353] 9])) in
   zt_find t [root_l; 353; 354; 355] = Some 2 /\ zt_find t [root_l; 353; 355] = Some 1 /\ zt_find t [root_l; 356] = Some 3 /\
   zt_get t [root_l; 353] = Some 1 /\ zt_get t [root_l; 355] = None.
+Proof. vm_compute. repeat split; reflexivity. Qed.
+
+(* ------------------------------------------------------------------ classes *)
+Lemma cls_get_set c c' n l : cls_get c' (cls_set c n l) = if c' =? c then Some n else cls_get c' l.
+Proof.
+  induction l as [|[k x] l IH]; simpl.
+  - rewrite (N.eqb_sym c c'). destruct (c' =? c); reflexivity.
+  - destruct (k =? c) eqn:E1; simpl.
+    + apply N.eqb_eq in E1. subst k. rewrite (N.eqb_sym c c'). destruct (c' =? c); reflexivity.
+    + rewrite IH. destruct (k =? c') eqn:E2; [|reflexivity]. apply N.eqb_eq in E2. subst k. rewrite E1. reflexivity.
+Qed.
+
+Lemma zr_get_set c c' n r : zr_get c' (zr_set c n r) = if c' =? c then Some n else zr_get c' r.
+Proof.
+  unfold zr_get, zr_set. destruct (c =? class_in) eqn:Ec; simpl.
+  - apply N.eqb_eq in Ec. subst c. destruct (c' =? class_in); reflexivity.
+  - destruct (c' =? class_in) eqn:Ec'.
+    + apply N.eqb_eq in Ec'. subst c'. rewrite N.eqb_sym, Ec. reflexivity.
+    + apply cls_get_set.
+Qed.
+
+(* zones of different classes do not see each other: inserting or removing a
+   zone of class c changes no lookup in any other class, and in class c it is
+   the single-class behaviour proved above *)
+Theorem zonetree_classes_isolated c p z r r' c' q : c' <> c ->
+  (zr_insert c p z r = Ok r' \/ zr_remove c p r = Ok r') ->
+  zr_find c' q r' = zr_find c' q r /\ zr_getz c' q r' = zr_getz c' q r.
+Proof.
+  intros Hne H. assert (E : (c' =? c) = false) by (apply N.eqb_neq; exact Hne).
+  unfold zr_find, zr_getz. destruct H as [H|H].
+  - unfold zr_insert in H. destruct (zt_insert p z _); inversion H; subst. rewrite zr_get_set, E. auto.
+  - unfold zr_remove in H. destruct (zr_get c r); [|discriminate]. destruct (zt_remove p z0); inversion H; subst.
+    rewrite zr_get_set, E. auto.
+Qed.
+
+Theorem zonetree_find_in_class c q r :
+  zr_find c q r = match zr_get c r with Some n => last_some (map (zt_get n) (prefixes q)) | None => None end.
+Proof. unfold zr_find. destruct (zr_get c r); [apply zt_find_closest|reflexivity]. Qed.
+
+Example classes_example :
+  let r := fst (c08_tree_run [ZIns 1 [root_l; 353] 1; ZIns 3 [root_l; 353] 2; ZIns 3 [root_l; 353; 354] 3; ZRem 1 [root_l; 353]]) in
+  zr_find 1 [root_l; 353; 354] r = None /\ zr_find 3 [root_l; 353; 354; 9] r = Some 3 /\ zr_find 3 [root_l; 353; 9] r = Some 2 /\
+  zr_find 4 [root_l; 353] r = None.
 Proof. vm_compute. repeat split; reflexivity. Qed.
